@@ -18,9 +18,6 @@
  */
 #define C19_T "rbtree"
 #include "c19_env.h"
-#ifndef NO_CUSTOM_ALLOC
-#include "c19_mempool.h"
-#endif
 #include "lib/util/src/rbtree.c"
 
 #ifndef SHAPE
@@ -39,6 +36,11 @@ typedef struct {
 	rbtree_node_t n;
 	sqfs_u8 payload[PAY];
 } node_wrap_t;
+
+#ifndef NO_CUSTOM_ALLOC
+#define C19_POOL_OBJ_SIZE ((sizeof(rbtree_node_t) + PAY + 7) / 8 * 8)
+#include "c19_mempool.h"
+#endif
 
 /* shapes: child index tables, -1 = none; node 0 is the root */
 #if SHAPE == 0
@@ -115,10 +117,9 @@ void harness(void)
 	src.pool = mem_pool_create(sizeof(rbtree_node_t) + PAY);
 #endif
 	for (i = 0; i < NN; ++i) {
-#ifndef NO_CUSTOM_ALLOC
-		on[i] = mem_pool_allocate(src.pool);
-#else
 		on[i] = malloc(sizeof(node_wrap_t));
+#ifndef NO_CUSTOM_ALLOC
+		c19_pool_adopt(src.pool, on[i]);
 #endif
 	}
 	for (i = 0; i < NN; ++i) {
@@ -158,7 +159,10 @@ void harness(void)
 		VERIF_ASSERT(g_alloc_failed > 0, C19_OB("succeeds"));
 		VERIF_ASSERT(dst.root == NULL, C19_OB("oom.out_empty"));
 		VERIF_ASSERT(g_live == live0, C19_OB("oom.no_leak"));
+		g_live = live0; /* keep the release obligations independent */
+#if NN > 0 || !defined(NO_CUSTOM_ALLOC)
 		VERIF_COVER(g_alloc_failed == 1);
+#endif
 	} else {
 		VERIF_ASSERT(g_alloc_failed == 0, C19_OB("succeeds"));
 		VERIF_ASSERT(dst.key_compare == cmp_stub && dst.key_size == KS &&
